@@ -25,9 +25,9 @@ func init() {
 		Rule: "ALL strictly ascending subsets of sizes 1..6 of a 12-string universe built around the recursion x EVERY maxSize 1..len+2; keyzoo sets of up to 300 keys x maxSize in {1,2,3,5,7,16,64,len,len+1}; " +
 			"node fan-outs of 255/256/257 children (a prefix key followed by every one-byte continuation) x maxSize around 256; thorough adds sets of 5000 generated keys with 40-byte common prefixes. Non-trivial+distinct = hash of (keys, maxSize) with >= 2 keys.",
 		Assumptions: []string{"non-empty strictly ascending key lists, maxSize >= 1"},
-		Flavours:    releaseThenGo126,
+		Flavours:    releaseAnd386,
 		Required: []string{"single-key-list", "maxSize=1", "maxSize>=len", "shard/single-key", "shard/full", "key-equals-common-prefix-of-successors", "split/restart-on-shorter-prefix",
-			"first-byte-distinct", "bytes/nul", "bytes/>=0x80", "deep-common-prefix", "fan-out/257-children", "fan-out/256-children", "keys>=40000"},
+			"first-byte-distinct", "bytes/nul", "bytes/>=0x80", "deep-common-prefix", "fan-out/257-children", "fan-out/256-children", "keys>=40000", "keys>2^18", "maxSize>=2^30"},
 		Families: func(c *mon.Config) []mon.Family {
 			fams := []mon.Family{
 				{Name: "universe-subsets", N: 1 << 12, Run: c17Subsets},
@@ -225,6 +225,15 @@ func c17Zoo(w *mon.W, idx int) {
 			return
 		}
 	}
+	if idx%16 == 0 {
+		// maxSize at the top of the int32 domain: one shard
+		for _, ms := range []int{1 << 30, 1<<31 - 1, 1<<31 - 6, 1<<31 - 1 - len(keys)} {
+			if !c17Check(w, keys, ms) {
+				return
+			}
+		}
+		w.Bucket("maxSize>=2^30")
+	}
 	w.Sample(func() interface{} {
 		return mon.D{"nkeys": len(keys), "first_keys": fmt.Sprintf("%.200q", keys[:min(4, len(keys))])}
 	})
@@ -296,15 +305,21 @@ func c17FanOut(w *mon.W, idx int) {
 func c17ManyKeys(w *mon.W, idx int) {
 	r := w.Rng
 	n := 40000 + r.Intn(30000)
+	if idx == 1 || idx%8 == 7 {
+		n = 262145 + r.Intn(40000) // beyond 2^18 keys
+		w.Bucket("keys>2^18")
+	}
 	raw := make([]string, 0, n)
 	for i := 0; i < n; i++ {
-		raw = append(raw, string([]byte{byte(i >> 16), byte(i >> 8), byte(i)})+string(gen.ZooBytes(r, r.Intn(2))))
+		// a common prefix, so that neighbours anywhere in the list (also across any internal chunk
+		// border an implementation may introduce) share at least three bytes
+		raw = append(raw, "key"+string([]byte{byte(i >> 16), byte(i >> 8), byte(i)})+string(gen.ZooBytes(r, r.Intn(2))))
 		if i&4095 == 0 {
 			w.Tick()
 		}
 	}
 	keys := gen.SortedUnique(raw)
-	for _, ms := range []int{1, 2, 300} {
+	for _, ms := range []int{1, 2, 300, 1000, len(keys)} {
 		if !c17Check(w, keys, ms) {
 			return
 		}
